@@ -1,7 +1,7 @@
 #!/bin/bash
 # usage: r2.sh Cxx — confirm round-2 mutants of a property and run its check on them
 for ab in A B; do
-  d=/tmp/mut2/$1/_out/$ab
+  d=${MUTBASE:-/tmp/mut3}/$1/_out/$ab
   [ -f $d/meta.json ] || { echo "$1-$ab: no meta.json"; continue; }
   c=$(/verif/tools/confirm_mutant.sh $d)
   echo "$1-$ab confirm: $(echo $c | python3 -c "import sys,json; e=json.load(sys.stdin); print(e['applies'],e['build'],e['suite_pass'],e['demo_with_patch'],e['demo_without_patch'])")"
